@@ -34,7 +34,7 @@ ASSUMPTIONS = [
     "[IN-FRAGMENT, kind]); outside the fragment soundness and zero-soundness have NO theorem; IDC* inherits the wrong "
     "answers of ID* (F10) and adds its own (the line-4 exchange ignores the remaining conditions; what remains of F11: "
     "Expression.conditional also normalises over the variables bound by inner sums of the ID* estimand -- the subscript part of "
-    "F11 is repaired by `fix:` f502ca2): decided by correspondence + exact "
+    "F11 is repaired by `fix:` a54a0f5): decided by correspondence + exact "
     "evaluation on 8 sampled functional SCMs per case; the known wrong answers are listed in known_findings.jsonl",
     "reading of an estimand as in C07 (free outcome variables take the values of the joint event; both subscript conventions "
     "are tried); models in which the conditions have probability 0 or a denominator of the estimand is 0 are skipped",
@@ -438,7 +438,7 @@ def _f11_repaired(case, expr):
 def _extra_is_bound_only(expr):
     """every name the normaliser sums over although it is not a free outcome variable of the numerator is bound by a Sum
     inside the numerator (what remains of F11); False when some such name occurs in subscripts only (repaired by
-    `fix:` f502ca2: must not happen any more)"""
+    `fix:` a54a0f5: must not happen any more)"""
     nr = _normaliser_ranges(expr)
     if nr is None:
         return False
@@ -487,7 +487,7 @@ def _judge(case, res, exc, n_models, strategy=None):
         reps = [r for r in _f11_repaired(case, expr) if r != expr]
         if any(S.check_estimand(g, jt, rep, case.get("seed", 0), n_models=n_models, cond=cond) is None for rep in reps):
             if not _extra_is_bound_only(expr):
-                # the subscript part of F11 (repaired by `fix:` f502ca2): neither conditional overload may sum over a name
+                # the subscript part of F11 (repaired by `fix:` a54a0f5): neither conditional overload may sum over a name
                 # that occurs in subscripts only; NOT a listed finding, so this is reported as a VIOLATION
                 return msg + (" [numerator right; the normalisation also sums over names that occur only as subscripts -- "
                               "both conditional overloads skip Intervention objects since the fix]"), "normalisation:subscript"
@@ -741,7 +741,7 @@ MANIFEST = {
              "code plus exact evaluation of P(outcomes, conditions)/P(conditions) on sampled functional SCMs; every wrong answer is "
              "attributed to the first step of IDC*'s chain of claims that exact evaluation shows to be broken (reassociation, "
              "exchange:conditions, exchange:separation, inherited from ID*, F11) and those steps are listed as open findings; three "
-             "small defects were fixed in idc_star.py (0cb6c69, 8a76512, 9f8a537) and the subscript part of F11 in dsl.py (f502ca2)."),
+             "small defects were fixed in idc_star.py (0cb6c69, 8a76512, 9f8a537) and the subscript part of F11 in dsl.py (a54a0f5)."),
     "note": ("Trusted: Lean kernel + standard axioms; hand-written models (ID*, counterfactual graph, d-separation of the sep "
              "family, Expression.conditional) tied to the code by differential testing under all set-iteration orders; the "
              "reading convention of estimands; sampled models (8 per case, P(conditions) > 0)."),
